@@ -79,6 +79,13 @@ func c10() {
 			return
 		}
 		strace := i%8 == 3 && variant == ""
+		if i%5 == 2 && variant == "" {
+			// hostile environment: the process sees another kernel release through uname(2); the kernel is what it is
+			rel := vlib.FakeKernelReleases[(i/5)%len(vlib.FakeKernelReleases)]
+			cc.StraceInject = vlib.UnamePoke(rel)
+			strace = true
+			run.Count("children_seeing_a_faked_kernel_release", 1)
+		}
 		res, err := vlib.RunChild(bin, "tsync", cc, strace, 90*time.Second)
 		desc := fmt.Sprintf("case %d: %d threads %v spawners=%d gomaxprocs=%d flags=%#x loader_spin=%d %s", i, nthreads, tc.Threads[:min(4, nthreads)], tc.Spawners, tc.GoMaxProcs, flags, tc.LoaderSpin, variant)
 		if err != nil || res.TimedOut || res.Line("done") == nil {
